@@ -79,7 +79,13 @@ void run_pairs(std::vector<idx> const& sizes, Config const& cfg, long cap_per_gr
 	std::string rootname = "array_ref<int," + std::to_string(D) + ">{" + vr_sizes(sizes) + "}";
 	vo::GuardBuffer<int> g1(N), g2(N);
 	auto exts = vo::make_extensions<D>(sizes);
+#ifdef VM_FANCY
+	fancy::g = fancy::Stats{};
+	multi::array_ref<int, D, fancy::ptr<int>> r1(exts, fancy::make(g1.data(), N)), r2(exts, fancy::make(g2.data(), N));
+	rootname = "array_ref<int," + std::to_string(D) + ",fancy::ptr<int>>{" + vr_sizes(sizes) + "}";
+#else
 	multi::array_ref<int, D> r1(exts, g1.data()), r2(exts, g2.data());
+#endif
 	// ---- state set (E1 search on r1; r2 has the same shape hence the same states)
 	std::vector<Saved> saved;
 	auto st = bfs(r1, root_model(sizes), cfg, skip, [&](auto&& v, MView const& m, Hist const& h) -> bool {
@@ -118,7 +124,7 @@ void run_pairs(std::vector<idx> const& sizes, Config const& cfg, long cap_per_gr
 						walk(r2(), s.h.data(), static_cast<int>(s.h.size()), [&](auto&& sv) {
 							using DV = std::decay_t<decltype(dv)>; using SV = std::decay_t<decltype(sv)>;
 							if constexpr(rank_of<DV> == rank_of<SV> && !is_ro_v<DV>) {
-								auto const* base_before = dv.base(); auto lay_before = dv.layout();
+								auto base_before = dv.base(); auto lay_before = dv.layout();
 								ex = do_form(form, dv, sv, d.m); ran = true;
 								if(dv.base() != base_before || !(dv.layout() == lay_before)) { post = "destination view was rebound or resized"; }
 							}
@@ -154,6 +160,10 @@ void run_pairs(std::vector<idx> const& sizes, Config const& cfg, long cap_per_gr
 		}
 	next_group:;
 	}
+#ifdef VM_FANCY
+	mc::R.add("fancy_dereferences", fancy::g.deref);
+	if(fancy::g.oob_deref || fancy::g.null_deref || fancy::g.null_arith) { mc::R.violation("D" + std::to_string(D) + "|fancy-pointer|" + (fancy::g.oob_deref ? "dereference-outside-storage" : "null-pointer-use"), mc::J().s("root", rootname).s("replay", prefix).s("detail", fancy::g.first).str()); }
+#endif
 	mc::R.note(rootname + ": view states=" + std::to_string(saved.size()) + " extents classes=" + std::to_string(groups.size()) + " depth=" + std::to_string(cfg.maxdepth));
 }
 
@@ -162,7 +172,11 @@ int replay_pair(std::vector<idx> const& sizes, Hist const& dh, Hist const& sh, i
 	idx N = 1; for(auto s : sizes) { N *= s; }
 	vo::GuardBuffer<int> g1(N), g2(N);
 	auto exts = vo::make_extensions<D>(sizes);
+#ifdef VM_FANCY
+	multi::array_ref<int, D, fancy::ptr<int>> r1(exts, fancy::make(g1.data(), N)), r2(exts, fancy::make(g2.data(), N));
+#else
 	multi::array_ref<int, D> r1(exts, g1.data()), r2(exts, g2.data());
+#endif
 	for(idx i = 0; i < N; ++i) { g1.data()[i] = static_cast<int>(1000 + i); g2.data()[i] = static_cast<int>(2000 + i); }
 	MView dm = root_model(sizes), sm = root_model(sizes);
 	for(auto const& o : dh) { m_apply(dm, o); } for(auto const& o : sh) { m_apply(sm, o); }
